@@ -7,7 +7,7 @@
 (*                        m mate, f flag, c contig id, p start, e end, t all tags except mi / ix           *)
 (*    "plan":[[{"c","s","e","fs","fe"}]]   the planned jobs (wrapper around generate_tasks)                *)
 (*    "jobs":[{"tasks":[{"c","s","e","fs","fe"}],"recs":[{"q","m","f","c","p","t","ix"}]}],  returned jobs  *)
-(*                        task: c = -1 the '*' job; s = -1 whole contig (contig-per-process)              *)
+(*                        task: c = -1 the '*' job; c = -2 no region at all; s = -1 whole contig          *)
 (*    "merged":[{"q","m","f","c","p","t"}]  the merged output (empty: the union of the jobs is the output) *)
 (*    "raised": exception type of the parallel run or "",  "pred"/"wrote": scenario replays only,         *)
 (*    "req": api mode only - the fragment_size requested from tag_multiome_multi_processing}              *)
@@ -26,7 +26,7 @@ KeyOfProj(x) == <<x[1], x[2]>>
 AllTasks(e) == UNION { Rng(e.plan[j]) : j \in DOMAIN e.plan }      \* the job list handed to the workers
 RegionTasks(e) == { t \in AllTasks(e) : t.c >= 0 /\ t.s >= 0 }
 CLen(e, c) == e.contigs[c + 1]
-Owns(t, c, s) == t.c = c /\ (t.s = -1 \/ (t.s <= s /\ s < t.e))
+Owns(t, c, s) == (t.c = c \/ t.c = -2) /\ (t.s = -1 \/ (t.s <= s /\ s < t.e))     \* t.c = -2: a task without any region
 Owners(e, c, s) == { j \in DOMAIN e.jobs : \E t \in Rng(e.jobs[j].tasks) : Owns(t, c, s) }
 
 (* the region tasks of every tiled contig partition [0, len) *)
